@@ -52,6 +52,10 @@ func main() {
 		oracle(os.Args[2:])
 	case "replay":
 		replay(os.Args[2:])
+	case "lib":
+		libMode(os.Args[2:])
+	case "libcorr":
+		libCorr(os.Args[2:])
 	case "pools":
 		p := loadPools()
 		for i, n := range p.textN {
@@ -1283,7 +1287,10 @@ func (g *genState) admissible(q *request) *request {
 	case "FLATTEN", "SEGMENT", "BALANCE":
 		bad = g.related[q.id]
 	case "ADDBATCH", "DELBATCH":
-		bad = g.flatRel[q.id] // FlattenBatches shares the batch HEADERS: renumbering by Create depends on positions
+		// SegmentFile hands credits-only / debits-only batches (IAT: header and control pointers) to the half
+		// as the same object: renumbering by a later Create depends on positions (FlattenBatches no longer
+		// shares headers, its relatives stay excluded as before)
+		bad = g.flatRel[q.id] || g.related[q.id]
 	case "CONTENTS", "BUILD":
 		bad = g.flatSrc[q.id]
 	}
@@ -1932,8 +1939,10 @@ func replay(args []string) {
 	var c struct {
 		Input struct {
 			Requests []string `json:"requests"`
+			Mode     string   `json:"mode"`
 		} `json:"input"`
 		Requests []string `json:"requests"`
+		Mode     string   `json:"mode"`
 	}
 	json.Unmarshal(bs, &c)
 	reqs := c.Input.Requests
@@ -1941,6 +1950,10 @@ func replay(args []string) {
 		reqs = c.Requests
 	}
 	p := loadPools()
+	if c.Input.Mode == "lib" || c.Mode == "lib" {
+		libReplay(p, reqs)
+		return
+	}
 	o := &orun{p: p, dist: map[string]int{}, nontr: map[string]bool{}}
 	o.history(nil, reqs, len(reqs))
 	for _, l := range reqs {
